@@ -7,7 +7,7 @@ import sys, os, json, importlib.util
 
 SRC = '''
 from bisturi.packet import Packet
-from bisturi.field import Int, Data
+from bisturi.field import Int, Data, Ref
 from bisturi.descriptor import Auto, AutoLength
 class LenG(Packet):
     length = Int(1).describe(AutoLength('a'))
@@ -16,6 +16,11 @@ class LenL(Packet):
     __bisturi__ = {'generate_for_pack': False, 'generate_for_unpack': False}
     length = Int(1).describe(AutoLength('a'))
     a = Data(length)
+class EmbG(Packet):
+    sub = Ref(LenG, embed=True)
+class EmbL(Packet):
+    __bisturi__ = {'generate_for_pack': False, 'generate_for_unpack': False}
+    sub = Ref(LenL, embed=True)
 class FunG(Packet):
     x = Int(1).describe(Auto(lambda pkt: pkt.t * 2 + 1))
     t = Int(1)
@@ -28,7 +33,7 @@ class FunL(Packet):
 
 def run(mod, h):
     cls = getattr(mod, h['cls'])
-    islen = h['cls'].startswith('Len')
+    islen = h['cls'].startswith(('Len', 'Emb'))
     name = 'length' if islen else 'x'
     p = None
     out = []
